@@ -171,8 +171,30 @@ VF_MAIN
     ssl->tls13ClientEarlyDataEnabled = vf_bool();
     ssl->tls13EarlyDataStatus = vf_u8() % 4;
     vf_bytes(M, NB);
-    /* one complete handshake message in the buffer */
     hl = ((uint32) M[1] << 16) | ((uint32) M[2] << 8) | M[3];
+#ifdef VF_FRAG
+    /* C08: a handshake message that continues in later records - the
+       reassembly buffer a not yet authenticated peer can make us allocate is
+       bounded like the TLS <= 1.2 one (64 KB + header) */
+    VF_ASSUME(hl > NB - 4);
+    pre = S;
+    rc = tls13ParseHandshakeMessage(ssl, &p, M + NB);
+    if (ssl->fragMessage != NULL)
+    {
+        VF_REACH("reassembly_started");
+        VF_ASSERT(ssl->fragTotal <= 65536 + TLS_HS_HDR_LEN, "c08.hs13.reassembly_buffer_bounded");
+        VF_ASSERT(ssl->fragIndex == NB && ssl->fragIndex < ssl->fragTotal, "c18.hs13.first_fragment_stored");
+        VF_ASSERT(rc == SSL_PARTIAL && p == M + NB, "c18.hs13.partial_message_consumed_and_more_requested");
+        VF_ASSERT(ssl->hsState == pre.hsState, "c06.hs13.partial_message_leaves_state");
+    }
+    else
+    {
+        VF_REACH("refused");
+        VF_ASSERT(rc < 0, "c08.hs13.oversize_message_refused");
+    }
+    VF_REACH("end");
+#else
+    /* one complete handshake message in the buffer */
     VF_ASSUME(hl <= NB - 4);
     pre = S;
     type = M[0];
@@ -225,4 +247,5 @@ VF_MAIN
         VF_ASSERT(g_tr_reinit == 1, "c10.hrr_transcript_replaced_by_message_hash");
     }
     VF_REACH("end");
+#endif
 }
